@@ -119,8 +119,20 @@ impl State {
 
     pub fn add_file<P: Into<PathBuf>>(&mut self, path: P) -> CoreResult<Arc<File>> {
         let path = path.into();
+        // File names are kept as strings (they end up in diagnostics, listings and the editor protocol)
+        let name = match path.to_str() {
+            Some(name) => name.to_string(),
+            None => {
+                return Err(Diagnostic::error()
+                    .with_message(format!(
+                        "the path '{}' is not valid UTF-8, which is not supported",
+                        path.to_string_lossy()
+                    ))
+                    .into())
+            }
+        };
         let src = self.source.lock().unwrap().get_contents(&path)?;
-        Ok(self.code_map.add_file(path.to_str().unwrap().into(), src))
+        Ok(self.code_map.add_file(name, src))
     }
 
     /// Mark the next reported error to be ignored (since it may be redundant or something)
